@@ -36,12 +36,14 @@ def _one(args):
         vs += extra(res, sc)
     div, labels, nact = (None, set(), 0)
     tick_div, n_ticks = None, 0
+    cov_pairs: list[str] = []
     data_follow = None
     if want_follow:
         global _DRIVER
         if _DRIVER is None:
             _DRIVER = Driver()
         div, labels, nact = protofollow.follow(_DRIVER, res.events, sc.get("max_attempts", 2))
+        cov_pairs = list(protofollow.LAST_COV)
         import tickfollow
         tick_div, n_ticks = tickfollow.follow(_DRIVER, res.events)
         if prop in DATA_FOLLOW and div is None:
@@ -68,7 +70,7 @@ def _one(args):
             "violations": [(v.key, v.what, v.case) for v in vs], "divergence": div,
             "labels": sorted(labels), "actions": nact, "features": feats,
             "decisions": res.decisions, "events": len(res.events), "abort": res.sched_abort,
-            "data_follow": data_follow, "tick_div": tick_div, "ticks": n_ticks}
+            "data_follow": data_follow, "tick_div": tick_div, "ticks": n_ticks, "cov": cov_pairs}
 
 
 _DRIVER = None
@@ -92,7 +94,9 @@ def run_many(ctx: Ctx, prop: str, jobs: list, res: SuiteResult, want_follow: boo
     else:
         outs = [_one(a) for a in args]
     labels = set(res.extra.get("proto_labels", []))
+    pairs = set(res.extra.get("proto_action_at_pc_pairs", []))
     for o in outs:
+        pairs |= set(o.get("cov", []))
         res.evaluations += 1
         res.hit("outcome:" + o["outcome"].split(":")[0] + (":" + o["abort"].split(":")[0] if o["abort"] else ""))
         for f in o["features"]:
@@ -138,6 +142,9 @@ def run_many(ctx: Ctx, prop: str, jobs: list, res: SuiteResult, want_follow: boo
         raise RuntimeError(f"{n_budget} of {res.evaluations} runs exhausted the step budget: the harness "
                            f"is not making progress (infrastructure error)")
     res.extra["proto_labels"] = sorted(labels)
+    res.extra["proto_action_at_pc_pairs"] = sorted(pairs)
+    res.extra["proto_action_at_pc_coverage"] = (f"{len(pairs)} distinct (action, program counter of the acting thread) "
+                                                f"pairs of Pamiq.Proto exercised against the code")
     res.extra["proto_transition_coverage"] = f"{len(labels)}/{PROTO_LABELS_TOTAL}"
 
 
